@@ -501,7 +501,16 @@ func genJunk(rt *rapid.T) junkLine {
 		m := genSshdMsg(rt)
 		s := m.Msg
 		toks := strings.Split(s, " ")
-		switch mut := rapid.IntRange(0, 9).Draw(rt, "mut"); mut {
+		switch mut := rapid.IntRange(0, 10).Draw(rt, "mut"); mut {
+		case 10: // hostile bytes inside a field, structure kept
+			j.Kind = "bytes_inside_field"
+			k := rapid.IntRange(0, len(toks)-1).Draw(rt, "k")
+			ins := rapid.SliceOfN(rapid.SampledFrom([]byte{0, 1, 7, 8, 11, 12, 27, 127, 128, 255, '"', '\\', 0xc3, 0xe2}), 1, 3).Draw(rt, "ins")
+			tk := toks[k]
+			pos := rapid.IntRange(0, len(tk)).Draw(rt, "pos")
+			toks2 := append([]string{}, toks...)
+			toks2[k] = tk[:pos] + string(ins) + tk[pos:]
+			s = strings.Join(toks2, " ")
 		case 0: // truncate at a token boundary
 			j.Kind = "truncate_token"
 			k := rapid.IntRange(0, len(toks)).Draw(rt, "k")
